@@ -34,9 +34,9 @@ func init() {
 		Assumptions: []string{"iteration contents are compared with table off only (a table defect is C11's)", "the soft limit may end the analysis after any iteration when a time control is set"},
 		Run:         sa.SessionC15})
 	register(&Spec{Prop: "C18", RaceTier: true, QuickRuns: 1500, Level: "exploration", NeedsBubble: true, CrashIsViolation: false,
-		Rule: "one run = one wiring (morlock, TUROCHAMP, SARGON, BERNSTEIN; table off; noise off or on), one game with history and one depth: first a solo analysis on a fresh engine in an otherwise idle bubble, then 2..3 further engines (different Zobrist seeds when noise is off, the same seed when it is on), optionally each after a completed analysis of another position, analysing the same game side by side with the seeded scheduler deciding whose gated search advances and by how much; finally the first engine repeats the analysis. Every completed iteration (depth, score, PV, node count) must equal the solo run's; Engine.Position() and all Engine.Board() getters are compared before, during (at quiescent points) and after each analysis. Non-trivial = at least one iteration and >= 6 scheduling events; distinct = hash of the (task, point) sequence",
+		Rule: "one run = one wiring (morlock, TUROCHAMP, SARGON, BERNSTEIN; table off; noise off or on), one game with history and one depth: first a solo analysis on a fresh engine in an otherwise idle bubble, then 2..3 further engines (different Zobrist seeds when noise is off, the same seed when it is on), optionally each after a completed analysis of another position, analysing the same game side by side with the seeded scheduler deciding whose gated search advances and by how much; finally the first engine repeats the analysis. With noise and table off the solo run's last iteration is also compared with the same root search called directly on a board on which the game was replayed and never forked; one session in three plays a move and takes it back on the side-by-side engines first; in a third of the noise-free sessions with a predecessor that predecessor ran with noise on. Every completed iteration (depth, score, PV, node count) must equal the solo run's; Engine.Position() and all Engine.Board() getters are compared before, during (at quiescent points) and after each analysis. Non-trivial = at least one iteration and >= 6 scheduling events; distinct = hash of the (task, point) sequence",
 		Real: saReal, Stub: saStub,
-		Assumptions: []string{"with noise on, only histories of completed analyses are compared (how many evaluations a halted search consumes is schedule-dependent by nature)", "data races on shared evaluator state are the -race tier's business"},
+		Assumptions: []string{"with noise on, only histories of completed analyses are compared (how many evaluations a halted search consumes is schedule-dependent by nature)", "data races on shared evaluator state are the -race tier's business", "the independent reference (noise and table off) calls the wiring's root search directly with the search context Iterative uses today (full window, no table, no noise) on a board replayed move by move: an engine that starts iterations with another window would need that mirrored here"},
 		Run:         sa.SessionC18})
 	register(&Spec{Prop: "C17", RaceTier: true, QuickRuns: 6000, Level: "exploration", NeedsBubble: true, CrashIsViolation: true,
 		Rule: "one run = 2..5 simulated clients with 2..8 tape-drawn Read/Write calls each (unique payload per store) on one real table of 1, 2 or 4 slots and 2..5 hashes (several per slot); clients park before each call and at the table's hook points (after the load in Read, before each rank test and after a successful CAS in Write) and the seeded scheduler decides who advances. The recorded history (stamped with a global event counter) is checked with porcupine, partitioned by slot, against a one-slot model whose replacement relation was learned from the real table's sequential behaviour; every hit must return a tuple one single store wrote; Used() in [0,1] at every quiescent point and equal to the number of occupied slots at the end. One run in six is an engine-level session instead (real engines with the table on, one Zobrist seed, inside the same kind of bubble as C18's): after earlier completed or client-halted analyses and an Engine.Reset, each iteration of a completed analysis must report exactly the fill fraction the same analysis reports on a fresh engine, and every reported fraction lies in [0,1]. A free-running -race tier runs the same kind of workload with real goroutines (runtime monitoring, not replayable). Non-trivial = at least 6 operations; distinct = hash of the (task, point) sequence",
